@@ -22,7 +22,7 @@ from bounded.common import MODES, entities, parse
 PLAIN = ["mood", "Order_Items", "x", "a1b2", "_u", "t$1", "MOOD", "m-n", "customerId", "phone_array"]
 # user type names containing the upper-case word ARRAY (Oracle varray style): only used by the dedicated set (6b)
 ARRAY_NAMES = ["PHONE_ARRAY", "ARRAY_T", "T_ARRAY_OF_INT"]
-QUOTED = ['"Mood"', '"my type"', '"a.b"', "[mood]", "`mood`"]
+QUOTED = ['"Mood"', '"my type"', '"a.b"', "[mood]", "`mood`", '"joe\'s"']     # the last one: an apostrophe inside a delimited name is part of the name
 # words of the keyword table that is active right after CREATE (tokens.definition_statements) and the words of the
 # statements themselves; `if` is left out (keyword-shaped name defect that belongs to C06), `authorization` too
 KEYWORDS = ["type", "table", "schema", "domain", "database", "tablespace", "sequence", "drop", "create", "alter", "replace", "or",
@@ -534,6 +534,11 @@ def check(ck):
                 comment = None if com is None else COMMENTS[(k + rep) % len(COMMENTS)]
                 st = st_schema(nm, ine, user, comment, com or 0, style, layout=(k + rep) % 3 if (k % 2) else 0)
                 both("schemas", (ine, has_name, has_user, com, style, rep, nm, user, comment), st)
+
+    # (3b) a delimited schema name holding an apostrophe, with each spelling of the COMMENT option on the same line
+    for com in (0, 1, 2):
+        for ine in (False, True):
+            both("schemas", ("apostrophe-in-delimited-name", com, ine), st_schema('"joe\'s"', ine, None, "sandbox", com, "upper"))
 
     # (4) databases: every name form x keyword case
     for ni, nm in enumerate(PLAIN + QUOTED + KEYWORDS):
